@@ -111,6 +111,10 @@ def main(argv=None):
     names = contracts_for(a.prop)
     if a.only:
         names = [n for n in names if re.search(a.only, n)]
+    elif tier == 'quick':
+        names = [n for n in names if getattr(REGISTRY[n], 'tier', 'quick') == 'quick']
+    import shutil
+    shutil.rmtree(os.path.join(ROOT, 'replays', a.prop), ignore_errors=True)
     if not names:
         print('pyvc: no contracts for property %s' % a.prop)
         return 3
